@@ -1094,8 +1094,7 @@ def alignment_rules(run, R="ALIGN"):
     run.floor(R, "alignment computations", n, 2)
     # an address that is not a whole number of units is an error unless guessing is allowed: the flag handed to eval_address is the
     # pass's own `can_guess()` and nothing else (or the constant of an audited caller)
-    audited_const = {"asm::resolver::eval_asm::resolve_once": "labels inside an asm block are provisional until the block's own confirming pass",
-                     }
+    audited_const = {}      # (an entry for eval_asm::resolve_once was wrong: F50 - the block's confirming pass floored the address too)
     ng = 0
     for f in prog.real_fns():
         for bi, t in f.calls():
